@@ -924,6 +924,49 @@ script main {
 for fmt, magic in [('ANM_12', '!anmmap'), ('STD_12', '!stdmap'), ('MSG_12', '!msgmap'), ('ECL_08', '!eclmap')]:
     add('feature/%s-builtin-enum-const-redefined' % fmt.lower().replace('_', ''), fmt, mapfiles=[magic + '\n!enum(name="bool")\n5 true\n0 false\n'], main_body='')
 
+# (e) every documented key of an ANM entry, including the rarely used secondary path (present and empty,
+#     present and non-empty), in old-header games
+for fmt in ['ANM_06', 'ANM_10']:
+    for tag, p2 in [('empty', ''), ('named', 'subdir/second.png')]:
+        add('feature/%s-path2-%s' % (fmt.lower().replace('_', ''), tag), fmt, full='''
+#pragma mapfile "map/any.anmm"
+
+entry {
+    path: "subdir/file.png",
+    path_2: "%s",
+    has_data: false,
+    img_width: 512,
+    img_height: 512,
+    img_format: 3,
+    offset_x: 0,
+    offset_y: 0,
+    colorkey: 0xff00ff,
+    memory_priority: 0,
+    low_res_scale: false,
+    sprites: {sprite0: {id: 0, x: 0.0, y: 0.0, w: 512.0, h: 480.0}},
+}
+script script0 {
+    ins_1();
+}
+entry {
+    path: "subdir/other.png",
+    path_2: "%s",
+    has_data: false,
+    img_width: 128,
+    img_height: 128,
+    img_format: 5,
+    offset_x: 0,
+    offset_y: 0,
+    colorkey: 0,
+    memory_priority: 0,
+    low_res_scale: false,
+    sprites: {sprite1: {id: 1, x: 0.0, y: 0.0, w: 12.0, h: 48.0}},
+}
+script script1 {
+    ins_1();
+}
+''' % (p2, p2))
+
 # --- seeded generated programs (tools/gen_programs.py): ids gen/<profile>-<k>, tag 'gen'
 import gen_programs
 for g in gen_programs.generate():
